@@ -556,7 +556,7 @@ func GenText(t *rapid.T, globals []Global, body []*Node, allowCR bool, maxLen in
 
 // ---------------------------------------------------------------- layouts
 
-var sepKinds = []string{"emptylinecomment", "space", "newline", "tabs", "linecomment", "linecomment_nolead", "blockcomment", "blockcomment_blanks", "nothing", "crlf"}
+var sepKinds = []string{"emptylinecomment", "space", "newline", "tabs", "linecomment", "linecomment_nolead", "blockcomment", "blockcomment_blanks", "nothing", "crlf", "formfeed_vtab"}
 
 func sepOf(kind string, body string) string {
 	switch kind {
@@ -568,6 +568,8 @@ func sepOf(kind string, body string) string {
 		return "\t\t"
 	case "crlf":
 		return "\r\n"
+	case "formfeed_vtab":
+		return "\f\v" // the documented WS token is the regex \s
 	case "emptylinecomment":
 		return "--\n"
 	case "linecomment":
